@@ -69,8 +69,11 @@ RECURSIVE HasBreak(_)
 HasBreak(s) == s # "" /\ (SubSeq(s, 1, 1) \in {"\n", "\r"} \/ HasBreak(SubSeq(s, 2, Len(s))))
 (* verdict for observed tree o against the node at raw index i reached with use site `use` *)
 RECURSIVE LVerdict(_, _, _, _, _, _)
-FirstBad(vs) == LET bad == {n \in 1..Len(vs) : vs[n] # "ok"} IN
-                IF bad = {} THEN "ok" ELSE vs[CHOOSE n \in bad : \A m \in bad : n <= m]
+(* the first verdict that is a real failure; the named deviation on quoted scalars only if nothing else is wrong *)
+FirstBad(vs) == LET bad == {n \in 1..Len(vs) : vs[n] \notin {"ok", "quoted-span-runs-past-closing-quote"}}
+                    dev == {n \in 1..Len(vs) : vs[n] = "quoted-span-runs-past-closing-quote"} IN
+                IF bad # {} THEN vs[CHOOSE n \in bad : \A m \in bad : n <= m]
+                ELSE IF dev # {} THEN "quoted-span-runs-past-closing-quote" ELSE "ok"
 LVerdict(t, raw, pos, o, i, use) ==
   LET j == Res(raw, i)  u == UseOf(use, i)
       below == IF use # 0 THEN use ELSE IF raw[i].k = "AL" THEN i ELSE 0 IN
@@ -105,11 +108,17 @@ LVerdict(t, raw, pos, o, i, use) ==
               ELSE LET ov == FirstBad([n \in 1..(2 * no) |->
                                  IF n % 2 = 1 THEN LVerdict(t, raw, pos, o.a[n], own[(n + 1) \div 2], below)
                                  ELSE LVerdict(t, raw, pos, o.a[n], RawVal(raw, own[n \div 2]), below)]) IN
-                   IF ov # "ok" THEN ov
-                   ELSE LET bad == {m \in mg : ~\E n \in (no + 1)..(no + Cardinality(mg)) :
-                                       /\ LVerdict(t, raw, pos, o.a[2 * n - 1], m.e, m.use) = "ok"
-                                       /\ LVerdict(t, raw, pos, o.a[2 * n], RawVal(raw, m.e), m.use) = "ok"} IN
-                        IF bad = {} THEN "ok" ELSE "merged-entry-not-attributed-to-its-merge"
+                   IF ov \notin {"ok", "quoted-span-runs-past-closing-quote"} THEN ov
+                   ELSE LET (* a merged entry matches a delivered pair if both nodes conform; the named deviation on quoted *)
+                            (* scalars does not stop the match, it is passed on as the map's verdict                       *)
+                            Q == "quoted-span-runs-past-closing-quote"
+                            slots == (no + 1)..(no + Cardinality(mg))
+                            pairV(m, n) == <<LVerdict(t, raw, pos, o.a[2 * n - 1], m.e, m.use), LVerdict(t, raw, pos, o.a[2 * n], RawVal(raw, m.e), m.use)>>
+                            fits(m, n) == pairV(m, n)[1] \in {"ok", Q} /\ pairV(m, n)[2] \in {"ok", Q}
+                            bad == {m \in mg : ~\E n \in slots : fits(m, n)} IN
+                        IF bad # {} THEN "merged-entry-not-attributed-to-its-merge"
+                        ELSE IF ov = Q \/ \E m \in mg : ~\E n \in slots : pairV(m, n) = <<"ok", "ok">> THEN Q
+                        ELSE "ok"
          [] OTHER -> "wrong-node-kind"
 (***************************************************************************)
 (* Errors.  ErrSites(o) = pre-order list of the observed tree's nodes that *)
